@@ -347,9 +347,9 @@ func TestC10(t *testing.T) {
 	hx.Main(t, "C10", func(r *hx.Run) {
 		r.Rule = "temporary worlds with 1-3 repositories (names may share a prefix: repo, repo2, repo-x; optionally nested) and optional files outside any repository; every repository has its own configuration (self-hosted labels, config-variables), a well-formed local action and a well-formed reusable workflow; 2-10 workflow files using the own/other repository's labels and variables, the local action, the reusable workflow (callee part of the invocation or not), invalid activity types and undefined configuration variables (messages that format shared tables). Argument lists: random subsets and orders, relative / ./ / absolute spellings, cwd = world root or a repository root, GOMAXPROCS 1/2/4/16. Oracle: (1) per-file diagnostics of LintFiles(list) = LintFile(file) on a fresh linter; (2) fingerprint of all built-in tables (verif hook) unchanged; (3) the same property under the race detector. Non-trivial = >= 2 files with diagnostics, or caller+callee, or two repositories in one invocation; distinct = case hash."
 		r.Assumptions = []string{"referenced local actions and reusable workflows are well-formed (as the statement requires)", "interleavings are sampled (GOMAXPROCS, repetition, many files), not enumerated; the race detector only sees executed paths"}
-		n := hx.N(220, 5000)
+		n := hx.N(220, 3000)
 		if race {
-			n = hx.N(120, 2500)
+			n = hx.N(120, 1500)
 		}
 		// (2') no lint run, whatever the workflow, may modify a built-in table: generated workflows with
 		// context objects used as whole values (matrix rows, include/exclude elements, env, with)
